@@ -55,7 +55,14 @@ TConn ==
 TRate == /\ Ev("tn.rate") /\ Keep
          /\ Judge(F(RateOK(E.samples, E.limit_bps, E.burst, (E.limit_bps \div 1000) * 300 + (IF E.burst < 65536 THEN E.burst ELSE 65536)),
                               "bytes delivered by a bandwidth-limited proxy exceed limit x interval + burst"))
-TNext == TReset \/ TNote \/ TConn \/ TRate
+\* an stcp connection whose backend speaks first, with the goroutine that accepted the visitor connection parked between
+\* handing it to the proxy and answering it: both endpoints stay open, so what the backend wrote has to arrive
+TOrder == /\ Ev("tn.order") /\ Keep
+          /\ Judge(F(E.ready, "the stcp scenario did not come up")
+                   \cup F(~E.gated \/ E.gate_hit, "the accepting goroutine never reached the hook")
+                   \cup F(E.ok /\ E.got = E.want, "bytes a backend wrote through an stcp proxy right after the visitor connection was accepted were not delivered (they overtook the answer to the visitor)"))
+THook == Ev("svc.visitorconn.accepted") /\ Keep /\ UNCHANGED <<bad, kf>>
+TNext == TReset \/ TNote \/ TConn \/ TRate \/ TOrder \/ THook
 TSpec == TInit /\ [][TNext]_<<vars, l, bad, rel, kf>>
 NoMismatch == bad = {}
 \* the specification's invariants on the observed states
